@@ -224,3 +224,86 @@ func Tail(b []byte, n int) string {
 	}
 	return string(b)
 }
+
+// ---- batches of cases run in child processes that may die (log.Panic* is os.Exit(1) in the repo)
+
+// ChildCase is printed by a child before it executes case idx, so the parent knows the culprit of a death.
+func ChildCase(idx int, desc interface{}) {
+	b, _ := json.Marshal(desc)
+	os.Stdout.Write([]byte(fmt.Sprintf("@CASE %d %s\n", idx, b)))
+}
+
+// ChildDone prints the child's mergeable result.
+func ChildDone(r *res.R) {
+	os.Stdout.Write([]byte("@RESULT "))
+	r.WriteChild("-")
+}
+
+type BatchArg struct {
+	Seed  uint64          `json:"seed"`
+	Tier  string          `json:"tier"`
+	Start int             `json:"start"`
+	End   int             `json:"end"`
+	Extra json.RawMessage `json:"extra,omitempty"`
+}
+
+type Death struct {
+	Idx    int
+	Desc   json.RawMessage
+	Result ChildResult
+}
+
+// RunBatch runs cases [start,end) of child `name`, restarting after each death. onDeath decides what a
+// death means (violation / expected / inconclusive). Returns number of deaths.
+func RunBatch(c *Ctx, name string, start, end int, extra interface{}, timeout time.Duration, onDeath func(d Death), env ...string) int {
+	deaths := 0
+	eb, _ := json.Marshal(extra)
+	for start < end {
+		arg := BatchArg{Seed: c.Seed, Tier: c.Tier, Start: start, End: end, Extra: eb}
+		cr := RunChild(c, name, arg, timeout, env...)
+		lastIdx := -1
+		var lastDesc json.RawMessage
+		gotResult := false
+		for _, line := range bytes.Split(cr.Stdout, []byte("\n")) {
+			if bytes.HasPrefix(line, []byte("@CASE ")) {
+				rest := line[6:]
+				sp := bytes.IndexByte(rest, ' ')
+				if sp > 0 {
+					lastIdx, _ = strconv.Atoi(string(rest[:sp]))
+					lastDesc = append(json.RawMessage{}, rest[sp+1:]...)
+				}
+			} else if bytes.HasPrefix(line, []byte("@RESULT ")) {
+				if err := c.R.MergeBytes(line[8:]); err == nil {
+					gotResult = true
+				}
+			}
+		}
+		if gotResult && cr.Exit == 0 {
+			return deaths
+		}
+		deaths++
+		if lastIdx < start {
+			// died before the first case: nothing to blame, give up on this batch
+			c.R.Inconcl(fmt.Sprintf("child %s died before its first case (exit %d, timeout=%v): %s", name, cr.Exit, cr.TimedOut, Tail(cr.Stderr, 400)))
+			return deaths
+		}
+		c.R.Cases(int64(lastIdx - start))
+		onDeath(Death{Idx: lastIdx, Desc: lastDesc, Result: cr})
+		start = lastIdx + 1
+		if deaths > 50 {
+			c.R.Inconcl("child " + name + " died more than 50 times; batch abandoned")
+			return deaths
+		}
+	}
+	return deaths
+}
+
+// ParseBatchArg is the child-side helper.
+func ParseBatchArg(raw json.RawMessage, extra interface{}) BatchArg {
+	var a BatchArg
+	json.Unmarshal(raw, &a)
+	if extra != nil && len(a.Extra) > 0 {
+		json.Unmarshal(a.Extra, extra)
+	}
+	return a
+}
